@@ -155,9 +155,9 @@ pub fn ring_lines(rng: &mut Rng, idx: u64) -> Vec<String> {
                 let (x, y, z) = (RealSemiring(a), RealSemiring(b), RealSemiring(c));
                 let v = |f: RealSemiring| f64_exact(f.0);
                 format!(
-                    "add={} mul={} sub={} join={} meet={} choose={} cmp={} addab_c={} adda_bc={} mulab_c={} mula_bc={} mula_bpc={} ab_p_ac={} zero={} one={} subadd={}",
+                    "add={} mul={} sub={} join={} meet={} choose={} choose2={} cmp={} addab_c={} adda_bc={} mulab_c={} mula_bc={} mula_bpc={} ab_p_ac={} zero={} one={} subadd={}",
                     v(x + y), v(x * y), v(x - y), v(x.join(&y)), v(x.meet(&y)),
-                    v(BBSemiring::choose(&x, &y)), ord_str(x.partial_cmp(&y)),
+                    v(BBSemiring::choose(&x, &y)), v(BBRing::choose(&x, &y)), ord_str(x.partial_cmp(&y)),
                     v((x + y) + z), v(x + (y + z)), v((x * y) * z), v(x * (y * z)),
                     v(x * (y + z)), v((x * y) + (x * z)),
                     v(RealSemiring::zero()), v(RealSemiring::one()), v((x - y) + y)
@@ -177,9 +177,9 @@ pub fn ring_lines(rng: &mut Rng, idx: u64) -> Vec<String> {
                 let z = ExpectedUtility(vals[4].0, vals[5].0);
                 let v = |f: ExpectedUtility| format!("{},{}", f64_exact(f.0), f64_exact(f.1));
                 format!(
-                    "add={} mul={} sub={} join={} meet={} choose={} cmp={} addab_c={} adda_bc={} mulab_c={} mula_bc={} mula_bpc={} ab_p_ac={} zero={} one={} subadd={}",
+                    "add={} mul={} sub={} join={} meet={} choose={} choose2={} cmp={} addab_c={} adda_bc={} mulab_c={} mula_bc={} mula_bpc={} ab_p_ac={} zero={} one={} subadd={}",
                     v(x + y), v(x * y), v(x - y), v(x.join(&y)), v(x.meet(&y)),
-                    v(BBSemiring::choose(&x, &y)), ord_str(x.partial_cmp(&y)),
+                    v(BBSemiring::choose(&x, &y)), v(BBRing::choose(&x, &y)), ord_str(x.partial_cmp(&y)),
                     v((x + y) + z), v(x + (y + z)), v((x * y) * z), v(x * (y * z)),
                     v(x * (y + z)), v((x * y) + (x * z)),
                     v(ExpectedUtility::zero()), v(ExpectedUtility::one()), v((x - y) + y)
